@@ -107,6 +107,6 @@ if __name__ == "__main__":
     if sys.argv[1] == "import":
         do_import(sys.argv[2], sys.argv[3], sys.argv[4])
     else:
-        ids = sys.argv[2:] or sorted(os.listdir(SDIR))
+        ids = sys.argv[2:] or sorted(d for d in os.listdir(SDIR) if os.path.isdir(os.path.join(SDIR, d)))
         for sid in ids:
             do_run(sid)
